@@ -5,7 +5,7 @@ PROP = dict(
     corr=["Model/FsmCorr.vo", "Model/C12Corr.vo"],
     design_ref="DESIGN.md §6 C12",
     technique="Coq: arithmetic of the amount getters with explicit int64/uint64 wrap, CheckPremiumAmount as guard of the wrapped actions, claim-invoice equality from C01's invoice invariant; pure-function boundary grids + step-level correspondence against the real SwapService; monitor with integer (unwrapped) arithmetic",
-    level_text="Machine-checked: inside the range CheckPremiumAmount accepts (premium <= limit, 0 <= amount+premium <= MaxUint64/1000) GetClaimAmount / GetOpeningTXAmount / *1000 do not wrap (int64/uint64 arithmetic explicit); the CheckPremiumAmount wrapper lets its action run only when that check passed; for ALL histories (C01's quantifiers) the claim invoice a taker pays has msat = GetClaimAmount()*1000, which for a swap-in responder is amount*1000 and for a swap-out initiator whose record passed the check is (amount+premium)*1000 <= (amount+limit)*1000 as integers (PARTIAL: that the check state dominates the paying state is a premise, monitored on every observed scenario); the responder's agreement carries the configured premium. D13 (negative premium + *1000 wrap) was confirmed on the real code and FIXED (repo commit 445c8f6).",
+    level_text="Machine-checked: inside the range CheckPremiumAmount accepts (premium <= limit, 0 <= amount+premium <= MaxUint64/1000) GetClaimAmount / GetOpeningTXAmount / *1000 do not wrap (int64/uint64 arithmetic explicit); the CheckPremiumAmount wrapper lets its action run only when that check passed; for ALL histories (C01's quantifiers) the claim invoice a taker pays has msat = GetClaimAmount()*1000, which for a swap-in responder is amount*1000 and for a swap-out initiator whose record passed the check is (amount+premium)*1000 <= (amount+limit)*1000 as integers (PARTIAL: that the check state dominates the paying state is a premise, monitored on every observed scenario); the responder's agreement carries the configured premium. D13 (negative premium + *1000 wrap) was confirmed on the real code and FIXED (repo commit 0078b77).",
     level_note="Trusted: Coq kernel; hand-written Gallina model of swap/actions.go (CheckPremiumAmount incl. the new range check, PayFeeInvoiceAction with 3*estimate exact below 2^51) tied by the pure-function grid (c12fn) and step-level correspondence; fee bound (i), swap-in initiator amounts (iii) and the dominance of the premium check are checked by the monitor on observed scenarios (directed boundary scenarios), not proved over all histories.",
     assumptions=[
         "Go types: amount is a uint64, premium an int64",
